@@ -354,11 +354,10 @@ func runPropertyFiltered(eng *Engine, prop, tier string, seed int, loadSecs floa
 		it.contract = contractKind(r.O.Kind)
 		// a contract clause is locked as a clause: a new instance of it (a new call
 		// site of an assert-at callee, a new return path) is covered by the same lock
-		if !it.Locked && it.contract {
-			if i := strings.LastIndex(r.O.Name, "#"); i > 0 && locked[r.O.Name[:i]] {
-				it.Locked = true
-				it.Detail = "new instance of a locked contract clause; "
-			}
+		// (only when every instance of the clause was locked: the CLAUSE marker)
+		if !it.Locked && it.contract && isLocked(r.O) {
+			it.Locked = true
+			it.Detail = "new instance of a locked contract clause; "
 		}
 		if fi, err := os.Stat(r.File); err == nil {
 			it.SMTBytes = int(fi.Size())
